@@ -7,7 +7,8 @@ identities decided by `bv_decide`), not through the list model of Model/Netlink.
 the fields at the kernel's offsets and sizes in little-endian order with zero padding, decoding an image of the right
 size returns the fields, and any other size is rejected with the destination untouched and nothing read.
 -/
-import CanVerif.Bridge.DataGo
+import CanVerif.Gen.DataGo
+import Std.Tactic.BVDecide
 
 namespace CanVerif.Bridge
 open CanVerif CanVerif.Gen.Go
